@@ -1,6 +1,7 @@
 import RocflModel.Basic.CaseTable
 import RocflModel.Spec.LayoutSpec
 import Driver.Hist
+import RocflModel.Json
 /-
   Line-protocol driver: runs the *model* definitions (and the spec definitions, for the oracle)
   on the same request lines the Rust harness executes against rocfl.
@@ -50,6 +51,19 @@ structure DState where
 def step (st : DState) (line : String) : DState × String :=
   match line.trimAscii.toString.splitOn " " with
   | "layout" :: args => (st, doLayout args)
+  | ["jsonstr", a] =>
+    match decodeArg a with
+    | some s =>
+      let body := Rocfl.Json.escape s
+      (st, s!"ok {encodeArg body} rt={if Rocfl.Json.unescape body == some s then 1 else 0}")
+    | none => (st, "bad-arg")
+  | ["jsonparse", a] =>
+    match decodeArg a with
+    | some body =>
+      match Rocfl.Json.unescape body with
+      | some s => (st, "ok " ++ encodeArg s)
+      | none => (st, "err")
+    | none => (st, "bad-arg")
   | op :: args =>
     let (h, out) := Driver.histStep st.hist op args
     ({ st with hist := h }, if h.nondet then out ++ " #nondet" else out)
